@@ -6,6 +6,7 @@ import (
 	"context"
 	"encoding/json"
 	"fmt"
+	"math"
 	"path/filepath"
 	"sync"
 	"testing"
@@ -140,7 +141,7 @@ func (s *limSUT) observe() any {
 	if !ok {
 		gl = -1
 	}
-	return J{"gauge": int(s.dl.VerifInFlight()), "busy": s.busy(), "limit": s.limit(), "est": s.lim.EstimatedLimit(), "nsamp": n, "bl": bl, "glimit": gl}
+	return J{"gauge": int(s.dl.VerifInFlight()), "busy": s.busy(), "limit": s.limit(), "est": clipInt(s.lim.EstimatedLimit()), "nsamp": n, "bl": bl, "glimit": gl}
 }
 
 func (s *limSUT) apply(op limOp) (res J, err error) {
@@ -255,6 +256,23 @@ func mkLim(raw json.RawMessage) (sut, error) {
 	return newLimSUT(cfg)
 }
 
+// clipInt: estimates far below zero (beyond what an int32 holds - and TLC's integers are 32 bit) are reported to the model
+// as -2^30: every non-positive estimate means the same to the contract (the limit in force is 1)
+func clipInt(v int) int {
+	if v < -(1 << 30) {
+		return -(1 << 30)
+	}
+	return v
+}
+
+func clipInts(vs []int) []int {
+	out := make([]int, len(vs))
+	for i, v := range vs {
+		out[i] = clipInt(v)
+	}
+	return out
+}
+
 func inBubble(t *testing.T, f func(t *testing.T)) {
 	synctest.Test(t, f)
 }
@@ -294,7 +312,7 @@ func TestLimiterRandom(t *testing.T) {
 				MinW: r.between(1, 6), Threshold: r.between(0, 2), Est0: r.between(1, 6), Rem0: -1}
 			cfg.MaxW = cfg.MinW + r.intn(6)
 			for i := r.between(1, 5); i > 0; i-- {
-				cfg.Script = append(cfg.Script, []int{-3, 0, 1, 2, 3, 5, 8, 16}[r.intn(8)])
+				cfg.Script = append(cfg.Script, []int{-3, 0, 1, 2, 3, 5, 8, 16, math.MinInt32 - 1, -(1 << 32) + 7, math.MinInt64 + 5}[r.intn(11)])
 			}
 			if bursty {
 				cfg.Strat, cfg.Est0, cfg.Threshold = []string{"simple", "precise"}[k%2], r.between(8, 14), r.intn(2)
@@ -319,7 +337,7 @@ func TestLimiterRandom(t *testing.T) {
 				t.Fatalf("trace %d: %v", k, err)
 			}
 			cfgOut := J{"strat": cfg.Strat, "wsize": cfg.WSize, "minw": cfg.MinW, "maxw": cfg.MaxW, "threshold": cfg.Threshold,
-				"est0": cfg.Est0, "script": cfg.Script, "rem0": cfg.Rem0, "part": J{"kind": "none"}}
+				"est0": cfg.Est0, "script": clipInts(cfg.Script), "rem0": cfg.Rem0, "part": J{"kind": "none"}}
 			if s.part != nil {
 				cfgOut["part"] = cfg.Part
 			}
